@@ -413,3 +413,26 @@ for _pid in ("C02", "C09"):
     PROPS[_pid]["ops"] = PROPS[_pid]["ops"] + ["respsend"]
     PROPS[_pid]["rule"] += ("; failing sends: Responder::send_responses on a real socket where some return addresses cannot be sent to (IPv6 address from an IPv4 socket; UDP port 0 of an address "
                             "that also has reachable requests), patterns none/first/last/middle/all/random: every datagram that arrives must verify (independent Lean verifier) for a distinct request queued for that address")
+
+
+# ---------------------------------------------------------------------------------------------------------------------
+# Translator tie (DESIGN 2.1c): Lean code regenerated from /repo's Rust sources on every run by checklib/rs2lean, and the
+# bridge theorems (Rough/Bridge/*.lean) that prove it equal to the hand-written model for all inputs.
+#   lean module -> rs2lean module(s) it depends on, theorems to audit, properties whose proof obligations they are
+BRIDGE = {
+    "Rough.Bridge.Message": {
+        "rs_modules": ["Message"],
+        "theorems": ["with_capacity_eq", "add_field_eq", "get_field_eq", "num_fields_eq", "encoded_size_eq", "encode_eq",
+                     "encode_framed_eq", "calculate_padding_length_eq", "from_bytes_sim", "from_bytes_no_panic"],
+        "props": ["C05", "C06", "C02", "C03"],
+    },
+    "Rough.Bridge.Request": {
+        "rs_modules": ["Message", "Request"],
+        "theorems": ["get_supported_version_eq", "is_rfc_request_eq", "nonce_from_classic_request_sim",
+                     "nonce_from_rfc_request_sim", "nonce_from_request_sim", "nonce_from_request_no_panic"],
+        "props": ["C07", "C08", "C09", "C12"],
+    },
+}
+for _mod, _b in BRIDGE.items():
+    for _pid in _b["props"]:
+        PROPS[_pid].setdefault("bridge", []).append(_mod)
